@@ -116,7 +116,7 @@ impl Prop for TbCompleteness {
         )
             .prop_map(|(n, pick, mirror, extra_depth, seed, hasher_seed, w, sched)| {
                 let workers = WORKERS[w as usize];
-                TbMateCase { n, pick, mirror, extra_depth, seed, hasher_seed, workers, sched: if workers > 1 { Some(sched) } else { None } }
+                TbMateCase { n, pick, mirror, extra_depth, seed, hasher_seed, workers, sched: if workers > 1 && sched % 8 != 0 { Some(sched) } else { None } }
             })
             .boxed()
     }
@@ -291,7 +291,7 @@ impl Prop for SolverMates {
         )
             .prop_map(|(source, extra_depth, seed, hasher_seed, w, sched)| {
                 let workers = WORKERS[w as usize];
-                SolverCase { source, extra_depth, seed, hasher_seed, workers, sched: if workers > 1 { Some(sched) } else { None } }
+                SolverCase { source, extra_depth, seed, hasher_seed, workers, sched: if workers > 1 && sched % 8 != 0 { Some(sched) } else { None } }
             })
             .boxed()
     }
